@@ -334,8 +334,9 @@ def strat(draw, tier):
     elif stage == "multi_tan":
         from .. import mtgen
 
-        case = draw(mtgen.mosaic_cases(tier, max_size=300, max_inputs=6))
+        case = draw(mtgen.mosaic_cases(tier, max_size=200, max_inputs=10))
         case["stage"] = stage
+        case["k"] = draw(st.sampled_from([1, 2, 2, 2, 3]))
         if case["k"] > 1:
             case["sched"] = draw(scen.schedules(max_size=100))
     elif stage == "transform":
@@ -346,7 +347,7 @@ def strat(draw, tier):
     else:
         case = draw(scen.pyramid_cases(3 if tier == "quick" else 5))
         case["stage"] = stage
-    case["fail_idx"] = draw(st.integers(0, 2000))
+    case["fail_idx"] = draw(st.one_of(st.integers(0, 2000), st.integers(0, 2)))
     case["exc"] = draw(st.sampled_from(["runtime", "runtime", "os", "value", "key", "plain", "builtin-os", "builtin-value", "empty", "kill"]))
     if case["exc"] == "kill" and (case.get("k", 1) == 1 or case["stage"] not in ("walk", "leaves")):
         case["exc"] = "runtime"  # killing the only (serial) process is not a meaningful fault
